@@ -447,48 +447,85 @@ Fixpoint replay (fuel : nat) (c : config) (st : state) (log : list (nat * evk)) 
 
 (** * C08 phase order as a boolean specification on an observed global log
 
-    Independent of [step]: events are attributed to rounds by counting per
-    thread (every thread performs n generator calls, one clear, one start, one
-    end, one snapshot and [nd] drops per complete round), then the order
-    constraints of the property are checked on every pair of events. *)
-Record cnt : Type := { c_gen : nat; c_clear : nat; c_start : nat; c_end : nat; c_snap : nat; c_drop : nat }.
-Definition cnt0 : cnt := {| c_gen := 0; c_clear := 0; c_start := 0; c_end := 0; c_snap := 0; c_drop := 0 |}.
+    Independent of [step]: a monitor reads the global log in order, counting
+    per thread the generator calls, clears, start and end timestamps seen so
+    far (and whether the thread has panicked), and checks at every event what
+    the property says (sample size n fixed for the run):
 
-(** phase classes: 0 = generator/clear (before), 1 = start, 2 = end, 3 = snapshot/drop (after) *)
-Definition classify (n nd : nat) (k : cnt) (e : evk) : option (nat * nat) * cnt :=
+    - a thread takes its (r+1)-th start timestamp only when every thread has
+      cleared its tally r+1 times and made (r+1)*n generator calls, or has
+      panicked;
+    - a thread takes a snapshot or drops a value only when every thread has
+      taken at least as many end timestamps as itself, or has panicked. *)
+Record mcnt : Type := { m_gen : nat; m_clear : nat; m_start : nat; m_end : nat; m_pan : bool }.
+Definition mcnt0 : mcnt := {| m_gen := 0; m_clear := 0; m_start := 0; m_end := 0; m_pan := false |}.
+
+Definition mon_upd (m : mcnt) (e : evk) : mcnt :=
   match e with
-  | EGen => (Some (0, c_gen k / Nat.max n 1), {| c_gen := S (c_gen k); c_clear := c_clear k; c_start := c_start k; c_end := c_end k; c_snap := c_snap k; c_drop := c_drop k |})
-  | EClear => (Some (0, c_clear k), {| c_gen := c_gen k; c_clear := S (c_clear k); c_start := c_start k; c_end := c_end k; c_snap := c_snap k; c_drop := c_drop k |})
-  | EStart => (Some (1, c_start k), {| c_gen := c_gen k; c_clear := c_clear k; c_start := S (c_start k); c_end := c_end k; c_snap := c_snap k; c_drop := c_drop k |})
-  | EEnd => (Some (2, c_end k), {| c_gen := c_gen k; c_clear := c_clear k; c_start := c_start k; c_end := S (c_end k); c_snap := c_snap k; c_drop := c_drop k |})
-  | ESnap => (Some (3, c_snap k), {| c_gen := c_gen k; c_clear := c_clear k; c_start := c_start k; c_end := c_end k; c_snap := S (c_snap k); c_drop := c_drop k |})
-  | EDropOut | EDropIn => (Some (3, c_drop k / nd), {| c_gen := c_gen k; c_clear := c_clear k; c_start := c_start k; c_end := c_end k; c_snap := c_snap k; c_drop := S (c_drop k) |})
-  | _ => (None, k)
+  | EGen => {| m_gen := S (m_gen m); m_clear := m_clear m; m_start := m_start m; m_end := m_end m; m_pan := m_pan m |}
+  | EClear => {| m_gen := m_gen m; m_clear := S (m_clear m); m_start := m_start m; m_end := m_end m; m_pan := m_pan m |}
+  | EStart => {| m_gen := m_gen m; m_clear := m_clear m; m_start := S (m_start m); m_end := m_end m; m_pan := m_pan m |}
+  | EEnd => {| m_gen := m_gen m; m_clear := m_clear m; m_start := m_start m; m_end := S (m_end m); m_pan := m_pan m |}
+  | EPanic => {| m_gen := m_gen m; m_clear := m_clear m; m_start := m_start m; m_end := m_end m; m_pan := true |}
+  | _ => m
   end.
 
-Fixpoint annotate (n nd : nat) (ks : list cnt) (log : list (nat * evk)) : list (nat * nat) :=
+(** What must hold when thread (with counters) [m] logs [e]. *)
+Definition mon_ok (n : nat) (ms : list mcnt) (m : mcnt) (e : evk) : bool :=
+  match e with
+  | EStart =>
+    forallb (fun mj => m_pan mj || ((S (m_start m) <=? m_clear mj) && (S (m_start m) * n <=? m_gen mj))) ms
+  | ESnap | EDropOut | EDropIn =>
+    forallb (fun mj => m_pan mj || (m_end m <=? m_end mj)) ms
+  | _ => true
+  end.
+
+Fixpoint monitor (n : nat) (ms : list mcnt) (log : list (nat * evk)) : bool :=
   match log with
-  | [] => []
+  | [] => true
   | (t, e) :: rest =>
-    let '(o, k') := classify n nd (nth t ks cnt0) e in
-    match o with
-    | Some x => x :: annotate n nd (upd t k' ks) rest
-    | None => annotate n nd (upd t k' ks) rest
+    match nth_error ms t with
+    | Some m => mon_ok n ms m e && monitor n (upd t (mon_upd m e) ms) rest
+    | None => false
     end
   end.
 
-(** [later] occurred after [earlier] in the log: forbidden if the property
-    says that [later]'s kind of event must precede [earlier]'s in that round. *)
-Definition bad_pair (earlier later : nat * nat) : bool :=
-  (snd earlier =? snd later) &&
-  (((fst earlier =? 1) && (fst later =? 0)) ||     (* a start timestamp before another thread's generator call / clear *)
-   ((fst earlier =? 3) && (fst later =? 2))).      (* a snapshot / drop before another thread's end timestamp *)
+Definition log_sb (T n : nat) (log : list (nat * evk)) : bool := monitor n (repeat mcnt0 T) log.
 
-Fixpoint ordered (l : list (nat * nat)) : bool :=
-  match l with
-  | [] => true
-  | e :: rest => forallb (fun e' => negb (bad_pair e e')) rest && ordered rest
+(** * The global log of a model execution (what the hooks would record) *)
+
+Definition ev_of_act (a : act) : evk :=
+  match a with
+  | AGen _ => EGen | AWait w => EArrive w | AClear => EClear | ATsStart => EStart
+  | ACall _ => ECall | ATsEnd => EEnd | ASnapshot => ESnap
+  | ADrop _ true => EDropOut | ADrop _ false => EDropIn
   end.
 
-Definition log_sb (T n nd : nat) (log : list (nat * evk)) : bool :=
-  ordered (annotate n (Nat.max nd 1) (repeat cnt0 T) log).
+Definition step_event (c : config) (st : state) (l : label) : option (nat * evk) :=
+  match l, gp st with
+  | LThread i, GRun =>
+    match nth_error (ths st) i with
+    | Some th =>
+      match md th, blk th, nth_error (prog (ssize c (round st)) (shp c)) (pc th) with
+      | Run, Some _, Some (AWait w) => Some (i, ELeave w)
+      | Run, None, Some a =>
+        if faultable a && fault c i (round st) (pc th) then Some (i, EPanic) else Some (i, ev_of_act a)
+      | _, _, _ => None
+      end
+    | None => None
+    end
+  | _, _ => None
+  end.
+
+Fixpoint events (c : config) (st : state) (tr : list label) : list (nat * evk) :=
+  match tr with
+  | [] => []
+  | l :: t =>
+    match step c st l with
+    | Some st' => match step_event c st l with
+                  | Some e => e :: events c st' t
+                  | None => events c st' t
+                  end
+    | None => []
+    end
+  end.
